@@ -1,4 +1,4 @@
 SPECIFICATION Spec
-CONSTANTS PairSrc = "file" CtxU = "tiny" MaxFlow = 2 KeyU = "six"
+CONSTANTS PairSrc = "file" CtxU = "ops3" MaxFlow = 3 KeyU = "six"
 INVARIANT EmitFlow
 CHECK_DEADLOCK FALSE
